@@ -38,6 +38,21 @@ fn core_vocab() -> Vec<String> {
     .map(|s| s.to_string())
     .collect()
 }
+/// Fixed programs that stress resources rather than syntax (each in the four modes, no deviations).
+fn resource_programs() -> Vec<String> {
+    vec![
+        // an allocation of 8.6 GB, beyond the worker's address-space limit
+        "\\newIntArray\\m 2147483646 \\m 1=2 ".to_string(),
+        "\\def\\a{\\a\\a}\\a".to_string(),
+        "\\def\\a{{\\a}}\\a".to_string(),
+        format!("{}x{}", "{".repeat(20000), "}".repeat(20000)),
+        format!("{}\\relax", "\\expandafter".repeat(20000)),
+        "a".repeat(100_000),
+        format!("\\count 0={} \\the\\count 0", "1".repeat(5000)),
+        format!("\\def\\a{{{}}}\\a", "#".repeat(2) + &"x".repeat(50_000)),
+        format!("{}\\fi", "\\iftrue".repeat(20000)),
+    ]
+}
 fn mini_vocab() -> Vec<String> {
     ["\\the", "\\def", "\\a", "{", "}", "#", "1", "-", "2147483647", "é", "\\fi", "\\read"].iter().map(|s| s.to_string()).collect()
 }
@@ -88,6 +103,7 @@ fn seeds() -> Vec<String> {
         r"\count 2=2147483647 \dimen 0=.5\count 2 ",
         r"\count 1=-1073741824 \multiply\count 1 by 2 \divide\count 1 by -1 ",
         r"\newIntArray\m 4 \let\b=\m \b 2=5 \the\b 2 ",
+        r"\ifcase -2147483647 a\or b\or c\else d\fi \ifcase 2147483647 a\or b\fi",
     ] {
         v.push(s.to_string());
     }
@@ -148,6 +164,7 @@ struct Families {
     dev2_cum: Vec<u64>,
     short_full_len: u32,
     short_core_len: u32,
+    resource: Vec<String>,
 }
 impl Families {
     fn new(quick: bool) -> Families {
@@ -165,7 +182,7 @@ impl Families {
             let d = Self::n_dev(n, mini.len() as u64);
             dev2_cum.push(dev2_cum.last().unwrap() + d * d);
         }
-        Families { full, core, mini, seeds, dev1_cum, dev1_vocab, dev2_cum, short_full_len: if quick { 2 } else { 3 }, short_core_len: if quick { 3 } else { 4 } }
+        Families { full, core, mini, seeds, dev1_cum, dev1_vocab, dev2_cum, short_full_len: if quick { 2 } else { 3 }, short_core_len: if quick { 3 } else { 4 }, resource: resource_programs() }
     }
     fn n_dev(n: u64, k: u64) -> u64 {
         n + n * k + (n + 1) * k
@@ -194,6 +211,7 @@ impl Families {
             "short-core" => vcore::strings_upto(self.core.len() as u64, self.short_core_len) * 4,
             "seed-dev1" => self.dev1_cum.last().unwrap() * 4,
             "seed-dev2" => *self.dev2_cum.last().unwrap(),
+            "resource" => self.resource.len() as u64 * 4,
             _ => 0,
         }
     }
@@ -221,6 +239,7 @@ impl Families {
                 let chs = if d == 0 { self.seeds[s].clone() } else { Self::deviate(&self.seeds[s], &self.dev1_vocab, d - 1).expect("deviation index") };
                 (mode, join(&chs))
             }
+            "resource" => ((idx % 4) as usize, self.resource[(idx / 4) as usize].clone()),
             "seed-dev2" => {
                 let s = match self.dev2_cum.binary_search(&idx) {
                     Ok(i) => i,
@@ -485,9 +504,21 @@ enum ChunkEnd {
 }
 
 fn run_worker(family: &str, lo: u64, hi: u64, quick: bool, stall_s: u64) -> ChunkEnd {
-    let exe = std::env::current_exe().expect("current_exe");
     let dir = std::env::temp_dir().join(format!("c09-{}", std::process::id()));
     let _ = std::fs::create_dir_all(&dir);
+    // workers are started from a private copy of the binary: a rebuild during a long run must not
+    // change (or momentarily remove) what is being executed
+    static EXE: std::sync::OnceLock<std::path::PathBuf> = std::sync::OnceLock::new();
+    let exe = EXE
+        .get_or_init(|| {
+            let me = std::env::current_exe().expect("current_exe");
+            let copy = dir.join("c09-worker");
+            match std::fs::copy(&me, &copy) {
+                Ok(_) => copy,
+                Err(_) => me,
+            }
+        })
+        .clone();
     let pfile = dir.join(format!("p{}", SEQ.fetch_add(1, Ordering::Relaxed)));
     let _ = std::fs::write(&pfile, (u64::MAX - 1).to_le_bytes());
     // address space limit: an allocation failure must abort the worker, not exhaust the machine
@@ -635,7 +666,7 @@ fn run_family(ctx: &mut Ctx, fams: &Families, family: &str, bounds: &str) {
     let t0 = Instant::now();
     let deadline = Instant::now() + Duration::from_secs_f64(ctx.remaining_s());
     let threads = ctx.threads.max(1);
-    let chunk = (n / (threads as u64 * 6)).clamp(200, 40_000);
+    let chunk = if family == "resource" { 1 } else { (n / (threads as u64 * 6)).clamp(200, 40_000) };
     let nchunks = n.div_ceil(chunk);
     let next = AtomicU64::new(0);
     let done = AtomicU64::new(0);
@@ -760,7 +791,8 @@ fn main() {
     let (nf, nc) = (fams.full.len(), fams.core.len());
     run_family(&mut ctx, &fams, "short-full", &format!("every string of <= {} tokens over the full vocabulary ({nf} tokens: every installed primitive, braces, specials, numbers at every limit, non-ASCII) x 4 interaction modes", fams.short_full_len));
     run_family(&mut ctx, &fams, "short-core", &format!("every string of <= {} tokens over a {nc}-token core (registers, \\the, definitions, conditionals, \\expandafter, \\read/\\input) x 4 interaction modes", fams.short_core_len));
-    run_family(&mut ctx, &fams, "seed-dev1", &format!("{} seeds (the repository's all_error_cases + 31 idioms), unchanged and with every single deletion / substitution / insertion of a token from a {}-token vocabulary at every position, x 4 interaction modes", fams.seeds.len(), fams.dev1_vocab.len()));
+    run_family(&mut ctx, &fams, "seed-dev1", &format!("{} seeds (the repository's all_error_cases + 32 idioms), unchanged and with every single deletion / substitution / insertion of a token from a {}-token vocabulary at every position, x 4 interaction modes", fams.seeds.len(), fams.dev1_vocab.len()));
+    run_family(&mut ctx, &fams, "resource", &format!("{} fixed programs x 4 interaction modes: an 8.6 GB \\newIntArray, runaway recursion (doubling, nested groups), 20000 nested groups / \\expandafter / \\iftrue, a 100000-character line, a 5000-digit number, a 50000-token macro body", fams.resource.len()));
     if !ctx.quick() {
         run_family(&mut ctx, &fams, "seed-dev2", &format!("the same seeds with every pair of deviations over a {}-token vocabulary, scroll mode", fams.mini.len()));
     }
